@@ -538,6 +538,82 @@ def r15_lower_for(src, body_open_byte=0):
     return ''.join(out), lowered
 
 
+def r23_iter_mut(src, body_open_byte=0):
+    """R23: `for X in E.iter_mut() BODY`  (E a place expression: a path of fields)  ->
+       `; { let mut __mK: usize = 0; while __mK < E.len() { let mut __xK = E[__mK].clone(); { let X = &mut __xK; BODY } E.set(__mK, __xK); __mK = __mK + 1; } }`
+    K = ordinal of the loop among all loops of the function.  Element-wise copy-out / write-back: the same final vector as the
+    in-place mutation provided Clone is a copy (stated for the model structs) and BODY leaves the loop only by running to its end or
+    by leaving the function (`?` / `return`: the write-back of that element is then lost, so nothing may be claimed about the
+    vector on those paths).  A BODY with `break` / `continue` is left untouched."""
+    st = sig(lex(src))
+    edits = []
+    lowered = []
+    k = 0
+    for i, t in enumerate(st):
+        if t.start <= body_open_byte:
+            continue
+        if not (t.kind == 'id' and t.text in ('for', 'while', 'loop')):
+            continue
+        if t.text == 'for' and i + 1 < len(st) and st[i + 1].text == '<':
+            continue
+        k += 1
+        if t.text != 'for':
+            continue
+        if not (st[i + 1].kind == 'id' and st[i + 2].kind == 'id' and st[i + 2].text == 'in'):
+            continue
+        x = st[i + 1].text
+        j = i + 3
+        e0 = j
+        while j < len(st) and not (st[j].kind == 'p' and st[j].text == '{'):
+            if st[j].kind == 'p' and st[j].text in ('(', '['):
+                j = match_close(st, j)
+            j += 1
+        if j >= len(st):
+            continue
+        bo = j
+        bc = match_close(st, bo)
+        expr_toks = st[e0:bo]
+        if not (len(expr_toks) >= 5 and [u.text for u in expr_toks[-4:]] == ['.', 'iter_mut', '(', ')']):
+            continue
+        place = expr_toks[:-4]
+        if not all((u.kind == 'id') or (u.kind == 'p' and u.text == '.') for u in place):
+            continue
+        # break / continue belonging to THIS loop (not to a nested loop) -> leave untouched
+        depth_loops = []
+        bad = False
+        m = bo + 1
+        while m < bc:
+            u = st[m]
+            if u.kind == 'id' and u.text in ('for', 'while', 'loop'):
+                # skip the nested loop entirely
+                n2 = m + 1
+                while n2 < bc and not (st[n2].kind == 'p' and st[n2].text == '{'):
+                    if st[n2].kind == 'p' and st[n2].text in ('(', '['):
+                        n2 = match_close(st, n2)
+                    n2 += 1
+                m = match_close(st, n2) + 1
+                continue
+            if u.kind == 'id' and u.text in ('break', 'continue'):
+                bad = True
+                break
+            m += 1
+        if bad:
+            continue
+        e_text = src[place[0].start:place[-1].end]
+        hdr_old = src[t.start:st[bo].end]
+        hdr_new = (f'; {{ let mut __m{k}: usize = 0; while __m{k} < {e_text}.len() {{ let mut __x{k} = {e_text}[__m{k}].clone(); {{ let {x} = &mut __x{k};')
+        edits.append((t.start, st[bo].end, _keep_newlines(hdr_old, hdr_new)))
+        edits.append((st[bc].end, st[bc].end, f' {e_text}.set(__m{k}, __x{k}); __m{k} = __m{k} + 1; }} }}'))
+        lowered.append(k)
+    out, pos = [], 0
+    for a, b, rep in sorted(edits):
+        out.append(src[pos:a])
+        out.append(rep)
+        pos = b
+    out.append(src[pos:])
+    return ''.join(out), lowered
+
+
 R15_REVERSED = re.compile(r'let mut __i(\d+): usize = __v\d+\.len\(\); while __i\d+ > 0')
 
 
